@@ -208,10 +208,66 @@ func dischargeBounds(r *Run, fn *ssa.Function, rule string, reviewed []reviewedB
 			}
 		}
 		if !done {
+			// a helper's precondition: the goal speaks only of the helper's parameters and holds at every call site
+			if why, ok := provedAtCallers(r.P, fn, ob); ok {
+				r.Ok(rule, ob.Key, ob.In.Pos(), why)
+				continue
+			}
 			r.Bad(rule, ob.Key, ob.In.Pos(), "cannot prove "+strings.Join(failed, " and ")+" on every path: the operation can panic", factStrings(facts)...)
 		}
 	}
 	return len(obs)
+}
+
+// provedAtCallers: every goal of ob is an affine statement over fn's parameters and their lengths (immutable in
+// the callee), fn is an unexported function all of whose uses are plain static calls, and at each call site the
+// goal — with the arguments substituted — is entailed by the facts valid there.
+func provedAtCallers(p *Prog, fn *ssa.Function, ob BoundOb) (string, bool) {
+	if fn.Parent() != nil {
+		return "", false
+	}
+	sites, exact := p.staticCallSites(fn)
+	if !exact || len(sites) == 0 {
+		return "", false
+	}
+	paramIdx := func(v ssa.Value) int {
+		for i, prm := range fn.Params {
+			if ssa.Value(prm) == v {
+				return i
+			}
+		}
+		return -1
+	}
+	for _, c := range sites {
+		cfa := p.FA(c.Parent())
+		for _, g := range ob.Goals {
+			goal := g.a.Sub(g.b)
+			sub := linConst(goal.C)
+			for k, coef := range goal.T {
+				a := goal.Atoms[k]
+				var repl *Lin
+				switch {
+				case a.Op == "param":
+					if i := paramIdx(a.V); i >= 0 && i < len(c.Call.Args) {
+						repl = cfa.Lin(c.Call.Args[i])
+					}
+				case a.Op == "len" && len(a.Args) == 1 && a.Args[0].Op == "param":
+					if i := paramIdx(a.Args[0].V); i >= 0 && i < len(c.Call.Args) {
+						repl = cfa.linSym(lenOf(cfa.Sym(c.Call.Args[i])), 0)
+					}
+				}
+				if repl == nil {
+					return "", false
+				}
+				sub = sub.Add(repl.Scale(coef))
+			}
+			facts := cfa.FactsAt(c, sub)
+			if !Entails(facts, sub) && !cfa.entailsPhiSplit(c, facts, sub, linConst(0), 2) {
+				return "", false
+			}
+		}
+	}
+	return fmt.Sprintf("precondition over the parameters, proved at all %d call sites of %s", len(sites), fnName(fn)), true
 }
 
 var _ = token.NoPos
